@@ -132,8 +132,8 @@ fn spaces_from_bdl(bdl: &Data, id_maps: &IdMaps) -> Result<Vec<Space>, Error> {
     bdl.spaces
         .iter()
         .map(|s| {
-            let space_conds = id_maps.loads_id(&s.spaceconds).ok();
-            let system_conds = id_maps.thermostat_id(&s.systemconds).ok();
+            let space_conds = Some(id_maps.loads_id(&s.spaceconds)?);
+            let system_conds = Some(id_maps.thermostat_id(&s.systemconds)?);
             let illuminance = if s.veei_obj > f32::EPSILON {
                 fround2(100.0 * s.power / s.veei_obj)
             } else {
